@@ -237,7 +237,7 @@ def parse_out(s):
 
 class C11(PropBase):
     pid = "C11"
-    coq_dirs = ["Base", "C08", "C11"]
+    coq_dirs = ["Base", "C08", "C09", "C11"]
     translators = []
     bins = ["c11"]
     rule = ("case = records of one symbol file (FILE, INLINE_ORIGIN inside/outside FUNC blocks, PUBLIC, FUNC with line and "
@@ -270,7 +270,8 @@ class C11(PropBase):
                 "below the address, suppressed exactly when a FUNC of the table starts between it and the address; the source line is the covering line "
                 "record or the covering depth-0 inline call site; the inline chain has depths 0,1,2.. each covering the address, frames carry the next "
                 "call site / innermost line, reversed in the stack frame, and the depth loop ends within fuel = number of inlinees; for non-overlapping "
-                "files everything equals a linear scan. Model and real code (parser + fill_symbol + walk_stack) are run on the same generated files in "
+                "files everything (incl. the STACK WIN parameter size) equals a linear scan; the FUNC table of C09's byte-level parser model is C11's FUNC table "
+                "(c11_from_text_partial). Model and real code (parser + fill_symbol + walk_stack over a module list + Symbolizer::get_symbol_at_address) are run on the same generated files in "
                 "debug and release; an independent Python linear-scan oracle judges the real output.",
         "note": "Trusted: Coq kernel; hand-written model (correspondence-checked, parser table construction included); ExtrOcamlBasic extraction + OCaml/Rust glue; "
                 "std binary search and sort modelled from their documented algorithms. No axioms.",
@@ -515,7 +516,7 @@ class C11(PropBase):
             cases.append(line)
             dist[kind] = dist.get(kind, 0) + 1
         self.gen_exhaustive(tier, add)
-        nrand = 1500 if tier == "quick" else 20000
+        nrand = 4000 if tier == "quick" else 30000
         for _ in range(nrand):
             style = rng.below(10)
             if style < 5:
